@@ -1,7 +1,7 @@
 """Convenience re-exports for rule modules."""
 from . import formula as F
 from .facts import AnalysisBroken, REPO, VERIF
-from .ir import (ANY, V, Program, call_args, call_obj, callee, calls_in, contains, find, is_call_to, is_expr, match, show,
+from .ir import (ANY, V, Program, call_to, call_args, call_obj, callee, calls_in, contains, find, is_call_to, is_expr, match, show,
                  stmt_exprs, stmts, subexprs, undefarg, all_exprs)
 from .ladder import Rung, check_ladder, exits, invalid_call, naming, loop_range_key
 from .paths import (ASSIGN_OPS, Flow, MustFlow, all_sites, always_exits, has_break, local_defs, returns, sites, stmt_sites)
@@ -38,3 +38,52 @@ def check_return_formula(ctx, fn, program, spec_text, atoms, oid=None, rule="TWI
            None if ok else {"code": F.fshow(code), "binding": mapping, "unbound_code_atoms": unmatched[:12],
                             "counterexample": c1 or c2})
     return ok
+
+
+def check_guard(ctx, fn, program, pred, spec_text, atoms, oid, text, rule="MPT", min_sites=1, stmt_pred=None, subst=None, where_all=False):
+    """Every site matching `pred` (expression) / `stmt_pred` (statement) in fn is reached only if the
+    spec formula holds: path-condition(site) => spec  (truth table over canonical atoms)."""
+    subst = naming(fn, program) if subst is None else subst
+    if stmt_pred is not None:
+        ss = stmt_sites(fn, stmt_pred, program)
+    else:
+        ss = sites(fn, pred, program)
+    if len(ss) < min_sites:
+        raise AnalysisBroken("%s: expected >= %d sites for %s, found %d" % (fn.q, min_sites, oid, len(ss)))
+    spec = F.parse(spec_text)
+    ctx.used(fn)
+    allok = True
+    for s in ss:
+        f0 = s.formula(subst)
+        f, mapping, unmatched = F.bind_atoms(f0, atoms)
+        cex = F.counterexample(f, spec)
+        ok = cex is None
+        allok = allok and ok
+        ctx.ob("%s@L%s" % (oid, s.line), rule, "%s [in %s at line %s: path condition => %s]" % (text, fn.q, s.line, spec_text), ok, s.where,
+               None if ok else {"path_condition": F.fshow(F._slice(f0, F.rename(spec, {})) if False else f0)[:1500], "binding": mapping,
+                                "unbound_code_atoms": [u for u in unmatched][:15], "counterexample": cex})
+    return ss
+
+
+def handler_region(fn, msg):
+    """The `if (msg_type == NetMsgType::<msg>)` statement of a message-dispatch function."""
+    want = "msg_type == NetMsgType::%s" % msg
+    hits = [st for st in stmts(fn.body) if st.get("k") == "if" and (show(st.get("c")) == want or ("(%s)" % want) in show(st.get("c")))]
+    if len(hits) != 1:
+        raise AnalysisBroken("%s: expected exactly one `%s` handler, found %d" % (fn.q, want, len(hits)))
+    return hits[0]
+
+
+def local_values(fn, name):
+    """All values a local is given: its initialiser and every `name = e` (compound ops reported as ('op', e))."""
+    vals = []
+    for st in stmts(fn.body):
+        if st.get("k") == "decl" and st.get("n") == name and is_expr(st.get("i")):
+            vals.append((st.get("l"), st["i"]))
+        for _, e in stmt_exprs(st):
+            for x in subexprs(e):
+                if x[0] == "b" and x[1] in ASSIGN_OPS and match(["local", name], x[2]):
+                    vals.append((st.get("l"), x[3] if x[1] == "=" else ["compound", x[1], x[3]]))
+                if x[0] == "u" and x[1] in ("++", "--", "post++", "post--", "&") and match(["local", name], x[2]):
+                    vals.append((st.get("l"), ["compound", x[1]]))
+    return vals
